@@ -39,7 +39,7 @@ type Verdict struct {
 	What string `json:"what"` // human readable
 }
 
-func Disagree(what string) *Verdict { return &Verdict{Kind: "disagree", What: what} }
+func Disagree(what string) *Verdict  { return &Verdict{Kind: "disagree", What: what} }
 func Fail(key, what string) *Verdict { return &Verdict{Kind: "fail", Key: key, What: what} }
 func Skip(what string) *Verdict      { return &Verdict{Kind: "skip", What: what} }
 
@@ -70,7 +70,13 @@ type PropFn func(ctx *Ctx)
 var props = map[string]PropFn{}
 
 func RegisterProp(id string, f PropFn) { props[id] = f }
-func Prop(id string) PropFn           { return props[id] }
+
+// RegisterPropExtra adds a stream that runs after the property's own generators (cross-property streams such as the
+// composed pipeline); several may be registered per property, they run in registration order.
+var propExtras = map[string][]PropFn{}
+
+func RegisterPropExtra(id string, f PropFn) { propExtras[id] = append(propExtras[id], f) }
+func Prop(id string) PropFn                 { return props[id] }
 func PropIDs() []string {
 	var l []string
 	for k := range props {
@@ -714,8 +720,8 @@ func isDigits(s string) bool {
 
 type Options struct {
 	Prop, Tier, Driver, Out, Replay, RepoDir, Corpus string
-	Seed                                            int64
-	Lanes                                           int
+	Seed                                             int64
+	Lanes                                            int
 }
 
 func Run(o Options) int {
@@ -756,6 +762,10 @@ func Run(o Options) int {
 		ctx.Wait()
 		f(ctx)
 		ctx.Wait()
+		for _, x := range propExtras[o.Prop] {
+			x(ctx)
+			ctx.Wait()
+		}
 	}
 	if d := atomic.LoadInt64(&ctx.dropped); d > 0 {
 		res.Notes = append(res.Notes, fmt.Sprintf("crash storm: %d hang/fatal outcomes of the real code; %d further generated cases were dropped", atomic.LoadInt64(&ctx.crashes), d))
